@@ -58,23 +58,30 @@ def _stack_index(p):
 # ----------------------------------------------------------------------------------------------
 
 class _Gate:
+    """child side of the pipe protocol; raw descriptors, so that a signal handler of the locker (which makes gated
+    calls of its own while the interrupted call is still waiting for its `go`) can use it re-entrantly"""
+
     def __init__(self, rfd, wfd):
-        self.r = real_os.fdopen(rfd, "r")
-        self.w = real_os.fdopen(wfd, "w")
+        self.rfd = rfd
+        self.wfd = wfd
+        self.buf = b""
         self.order = {}          # stack index (str) -> real pids, newest lock file first
         self.pidmap = {}         # real pid (str) -> process index
         self.multi = False       # several stacks: call names carry "@<stack index>"
         self.users = {}          # process index (str) -> login name the locker runs under (None: the real one)
+        self.readonly = ()       # stack indices whose lock directory this locker cannot make (mkdir: EACCES)
 
     def say(self, what):
-        self.w.write(what + "\n")
-        self.w.flush()
+        real_os.write(self.wfd, (what + "\n").encode())
 
     def recv(self):
-        ln = self.r.readline()
-        if not ln:
-            real_os._exit(0)     # scheduler went away
-        return ln.rstrip("\n")
+        while b"\n" not in self.buf:
+            b = real_os.read(self.rfd, 65536)
+            if not b:
+                real_os._exit(0)     # scheduler went away
+            self.buf += b
+        ln, self.buf = self.buf.split(b"\n", 1)
+        return ln.decode()
 
     def call(self, name):
         self.say("CALL " + name)
@@ -129,6 +136,11 @@ def _install_proxies(lock, g):
         def mkdir(self, p, *a, **kw):
             if _in_lockdir(p) is None:
                 return real_os.mkdir(p, *a, **kw)
+            if _stack_index(p) in g.readonly:
+                # a stack this locker may not write to (the harness runs as root, so the refusal is made up here)
+                def refuse():
+                    raise OSError(errno.EACCES, "Permission denied", p)
+                return gated("mkdir", refuse, path=p)
             return gated("mkdir", lambda: real_os.mkdir(p, *a, **kw), path=p)
 
         def makedirs(self, p, *a, **kw):
@@ -288,6 +300,7 @@ def _child(spec, rfd, wfd):
         g.pidmap = init["pidmap"]
         g.multi = bool(init.get("multi"))
         g.users = init.get("users") or {}
+        g.readonly = tuple(spec.get("ro") or ())
         real_os.environ.pop("EUPS_LOCK_PID", None)
         if init.get("lock_pid") is not None:
             real_os.environ["EUPS_LOCK_PID"] = str(init["lock_pid"])
@@ -297,6 +310,20 @@ def _child(spec, rfd, wfd):
         from eups import hooks, utils
         handlers = []
         atexit.register = lambda f, *a, **kw: handlers.append((f, a, kw))
+        # a signal handler the locker installs runs gated like everything else; if it RETURNS, the interrupted command
+        # body resumes: say so, and announce the body again (the `go` it is still waiting for has not been sent)
+        orig_signal = signal.signal
+
+        def gated_signal(signum, h):
+            if not callable(h):
+                return orig_signal(signum, h)
+
+            def wrapped(sn, frame):
+                h(sn, frame)
+                g.say("RESUMED")
+                g.say("CALL work")
+            return orig_signal(signum, wrapped)
+        signal.signal = gated_signal
         if spec.get("user"):
             # the login name lock.py puts into its file names: utils.getUserName() answers from this cache of its own
             utils.getUserName.who = {False: spec["user"], True: spec["user"]}
@@ -405,7 +432,10 @@ class Proc:
                 self.pending = None
                 self.ended = True
                 if self.crash is None and not self._saw_end:
-                    self.crash = "died"
+                    if self.signalled:
+                        self.killed = True
+                    else:
+                        self.crash = "died"
                 return res
             if ln.startswith("CALL "):
                 self.pending = ln[5:]
@@ -415,6 +445,10 @@ class Proc:
             elif ln.startswith("HOLD "):
                 self.held = json.loads(ln[5:])
                 self.nlocks = len(self.held)
+            elif ln == "RESUMED":
+                self.resumed = True         # a signal handler returned: the body carries on, whatever locks it gave up
+                self.held, self.nlocks = [], 0
+                self.held_kinds = []
             elif ln == "BODY":
                 self.body_from_fs = True
             elif ln.startswith("STATUS "):
@@ -436,6 +470,9 @@ class Proc:
                 self.crash = ln[6:]
 
     _saw_end = False
+    signalled = False
+    killed = False
+    resumed = False
     body_from_fs = False
     status = None
     bodyfail = None
@@ -453,9 +490,17 @@ class Proc:
     def in_body(self):
         return self.pending == "work"
 
+    def signal(self, signum):
+        """deliver a signal to the locker (it is waiting in its command body) and read up to what it announces next"""
+        self.signalled = True
+        os.kill(self.pid, signum)
+        self._advance()
+
     def outcome(self):
         if self.crash:
             return "crash:" + self.crash
+        if self.killed:
+            return "killed"
         if self.acqfail:
             return "failed:" + self.acqfail
         if self.pending == "work":
@@ -487,6 +532,29 @@ class Proc:
             pass
 
 
+def _snapshot(stack):
+    """what is in a stack, lock directory aside: relative path -> content digest"""
+    import hashlib
+    out = {}
+    for dp, dn, fn in os.walk(stack):
+        if LOCKDIR in dn:
+            dn.remove(LOCKDIR)
+        for d in dn:
+            out[os.path.relpath(os.path.join(dp, d), stack) + "/"] = ""
+        for f in fn:
+            q = os.path.join(dp, f)
+            try:
+                with open(q, "rb") as fh:
+                    out[os.path.relpath(q, stack)] = hashlib.md5(fh.read()).hexdigest()
+            except OSError:
+                out[os.path.relpath(q, stack)] = "?"
+    return out
+
+
+EV_CLEAR, EV_LIST = 1000000, 1000001     # schedule entries: `eups admin clearLocks` / `listLocks` on stack 0
+EV_KILL = 2000000                        # EV_KILL + i: SIGKILL for locker i
+
+
 def related(procs, i, j):
     return procs[i].get("lp") == j or procs[j].get("lp") == i
 
@@ -514,9 +582,11 @@ def run_schedule(case, phases=None):
     base = case.get("base", "default")
     if base == "abs":
         base = os.path.join(root, "locks")
+    snap0 = [_snapshot(st) for st in stacks] if multi and stacks and os.path.isdir(os.path.join(stacks[0], "ups_db")) else None
     specs = case["procs"]
     n = len(specs)
-    paths = [list(sp.get("path", [0])) for sp in specs]
+    # the stacks a locker can lock: its path without those it cannot write to (there takeLocks proceeds without a lock)
+    paths = [[d for d in sp.get("path", [0]) if d not in (sp.get("ro") or [])] for sp in specs]
     procs = []
     try:
         def subst(a):
@@ -528,23 +598,31 @@ def run_schedule(case, phases=None):
         for i, sp in enumerate(specs):
             argv = [subst(a) for a in sp["argv"]] if sp.get("argv") is not None else None
             # a command line finds its stacks itself: $EUPS_PATH (env_path) and -Z/-z; `path` is what it should lock
-            dirs = [stacks[d] for d in (sp.get("env_path", paths[i]) if argv is not None else paths[i])]
+            full = list(sp.get("path", [0]))
+            dirs = [stacks[d] for d in (sp.get("env_path", full) if argv is not None else full)]
             procs.append(Proc(i, {"kind": sp["kind"], "dirs": dirs, "ntry": sp.get("tries", 0) + 1,
                                   "explicit": sp.get("explicit", True), "base": base, "argv": argv,
-                                  "user": sp.get("user")}))
+                                  "user": sp.get("user"), "ro": list(sp.get("ro") or [])}))
         pidmap = {str(p.pid): p.index for p in procs}
+        # stale locks: files of processes that were killed outright ("ghosts"; pids that are nobody's)
+        ghosts = [(k, int(g)) for k, g in (case.get("stale") or [])]
+        ghostpid = {g: 4000000 + g for _k, g in ghosts}
+        if ghosts and not multi:
+            ld0 = os.path.join((os.path.join(base, stacks[0].lstrip("/")) if case.get("base") == "abs" else stacks[0]), LOCKDIR)
+            os.makedirs(ld0)
+            for k, g in ghosts:
+                open(os.path.join(ld0, "%s-ghost.%d" % ("exclusive" if k == "E" else "shared", ghostpid[g])), "w").close()
+                pidmap[str(ghostpid[g])] = g
         users = {str(i): sp.get("user") for i, sp in enumerate(specs)}
         for p, sp in zip(procs, specs):
             lp = sp.get("lp")
             p.start({"pidmap": pidmap, "multi": multi, "users": users,
-                     "lock_pid": (procs[lp].pid if lp is not None and lp < n else (999999 if lp is not None else None))})
+                     "lock_pid": (procs[lp].pid if lp is not None and lp < n else
+                                  (ghostpid.get(lp, 999999) if lp is not None else None))})
         order = {str(d): [] for d in range(nd)}     # per stack: real pids, newest lock file first
+        if ghosts and not multi:
+            order["0"] = [ghostpid[g] for _k, g in ghosts]
         trace, executed = [], []
-        # race monitors, evaluated on the real run (class predicates of the known findings), per stack
-        aflag = [[False] * nd for _ in range(n)]
-        bflag = [[False] * nd for _ in range(n)]
-        # ... and the same events anywhere on the stack (the form of the classification that is a theorem)
-        ev = [{"a": False, "b": False, "c": False} for _ in range(nd)]
         viols = []
 
         def split(name):
@@ -552,10 +630,6 @@ def run_schedule(case, phases=None):
                 c, d = name.rsplit("@", 1)
                 return c, (int(d) if d.isdigit() else None)
             return name, (0 if not multi else None)
-
-        def inflight(q, d):
-            c, dd = split(procs[q].pending)
-            return c in ("scan_ex", "create") and dd == d
 
         def current_violators(record):
             v = []
@@ -573,21 +647,68 @@ def run_schedule(case, phases=None):
                     v.append([a, b])
                     if record:
                         d = ds[0]
-                        cls = "D12c" if d not in procs[b].held else "D12b" if (bflag[a][d] or bflag[b][d]) else \
-                              "D12a" if (aflag[a][d] or aflag[b][d]) else None
-                        if cls is None:
-                            # no race hit the pair itself: one that hit somebody else on this stack (their parent, say)
-                            cls = "D12b" if ev[d]["b"] else "D12a" if ev[d]["a"] else "D12c" if ev[d]["c"] else None
-                        viols.append({"step": len(trace), "pair": [a, b], "dir": d, "class": cls})
+                        # the repaired protocol has no known race left: every violation is outside every finding class
+                        viols.append({"step": len(trace), "pair": [a, b], "dir": d, "class": None,
+                                      "unlocked": d not in procs[b].held})
             return v
 
+        def admin(i):
+            """`eups admin clearLocks` / `listLocks` on stack 0: the real functions, run here (they bypass the protocol)"""
+            import contextlib
+            import io
+            import re
+            import eups.lock as lock
+            executed.append(i)
+            if i == EV_CLEAR:
+                sink = io.StringIO()
+                with contextlib.redirect_stdout(sink), contextlib.redirect_stderr(sink):
+                    lock.clearLocks([stacks[0]])
+                order["0"] = []
+                trace.append([-1, "clearLocks", "ok", current_violators(True)])
+            else:
+                out = io.StringIO()
+                with contextlib.redirect_stdout(out):
+                    lock.listLocks([stacks[0]])
+                txt = out.getvalue()
+                if not txt.strip():
+                    res = "-"
+                else:
+                    pids = re.findall(r"\[user=[^\]]*?, pid=(\d+)\]", txt)
+                    res = "[" + ",".join(str(x) for x in sorted(pidmap.get(q, -1) for q in pids)) + "]"
+                trace.append([-1, "listLocks", res, current_violators(False)])
+
         def one(i):
+            if i in (EV_CLEAR, EV_LIST):
+                return admin(i)
+            if i >= EV_KILL:
+                # SIGKILL: the locker stops dead wherever it is; whatever it put into the lock directory stays
+                p = procs[i - EV_KILL]
+                executed.append(i)
+                if p.pending is None:
+                    trace.append([p.index, "sigkill", "gone", current_violators(False)])
+                else:
+                    p.signalled = True
+                    p.sigkilled = True
+                    os.kill(p.pid, signal.SIGKILL)
+                    while not p.ended:
+                        p._advance()
+                    trace.append([p.index, "sigkill", "killed", current_violators(True)])
+                return
+            if i < 0:
+                # a signal for process -(i+1): delivered while it is in its command body, otherwise not sent at all
+                p = procs[-i - 1]
+                executed.append(i)
+                if p.pending == "work":
+                    p.signal(signal.SIGINT if case.get("signal") == "INT" else signal.SIGTERM)
+                    trace.append([p.index, "signal", "delivered", current_violators(True)])
+                else:
+                    trace.append([p.index, "signal", "ignored", current_violators(False)])
+                return
             p = procs[i]
             executed.append(i)
             if p.pending is None:
                 trace.append([i, "-", "-", current_violators(False)])
                 return
-            before = [[inflight(q, d) for d in range(nd)] for q in range(n)]
             name, res = p.go(order)
             if p.body_from_fs and p.nlocks is None:
                 # a real command line: which locks it holds is read off the file system when its body starts
@@ -601,23 +722,6 @@ def run_schedule(case, phases=None):
                                 p.held_kinds.append("E" if f.startswith("exclusive-") else "S")
                 p.nlocks = len(p.held)
             c, d = split(name)
-            nc, _nd = split(p.pending)
-            if d is not None and 0 <= d < nd:
-                if c == "mkdir":
-                    aflag[i][d] = bflag[i][d] = False
-                if (c == "scan_ex" and nc in ("scan_ex", "create")) or (c == "scan_all" and nc == "scan_ex"):
-                    # an admission test passed (the "exclusive*" listing, or the parent test of an exclusive request)
-                    if any(q != i and not related(specs, i, q) and before[q][d] and
-                           (specs[i]["kind"] == "E" or specs[q]["kind"] == "E") for q in range(n)):
-                        aflag[i][d] = True
-                        ev[d]["a"] = True
-                if c == "rmdir" and res == "ok":
-                    for q in range(n):
-                        if q != i and before[q][d]:
-                            bflag[q][d] = True
-                            ev[d]["b"] = True
-                if c == "exists_dir" and res == "False":
-                    ev[d]["c"] = True
             if c == "create" and res == "ok" and d is not None and p.pid not in order[str(d)]:
                 order[str(d)].insert(0, p.pid)
             if c == "remove" and res == "ok" and d is not None and p.pid in order[str(d)]:
@@ -667,6 +771,7 @@ def run_schedule(case, phases=None):
         for d in range(nd):
             db = os.path.join(stacks[d], "ups_db")
             products.append(sorted(x for x in os.listdir(db) if os.path.isdir(os.path.join(db, x))) if os.path.isdir(db) else [])
+        changed = [a != _snapshot(st) for a, st in zip(snap0, stacks)] if snap0 is not None else None
         residue = listing[0] if not multi else listing
         if not any(listing):
             residue = []
@@ -674,7 +779,9 @@ def run_schedule(case, phases=None):
                 "violations": viols, "phase_steps": phase_steps,
                 "held": [p.held if p.nlocks is not None else None for p in procs],
                 "held_kinds": [getattr(p, "held_kinds", None) for p in procs],
-                "status": [p.status for p in procs], "products": products}
+                "status": [p.status for p in procs], "products": products, "stack_changed": changed,
+                "resumed": [p.index for p in procs if p.resumed],
+                "sigkilled": [p.index for p in procs if getattr(p, "sigkilled", False)]}
     finally:
         for p in procs:
             if not p.ended:
